@@ -52,6 +52,13 @@ func checkC18(r *core.Run) {
 
 const hole = "§"
 
+// selSubst: while a loop over a package-level table of records is unrolled (c18ports.go), the constant
+// string fields of the current element, keyed by the selector as written (`port.name`).
+var selSubst map[string]string
+
+// c18Tables: package-level variables initialised with a composite literal (tables of records).
+var c18Tables = map[types.Object]*ast.CompositeLit{}
+
 // skeletonOf renders a string-valued expression: literals verbatim, everything else a hole.
 func skeletonOf(info *types.Info, e ast.Expr) string { return skeletonWith(info, e, nil) }
 
@@ -68,6 +75,12 @@ func skeletonWith(info *types.Info, e ast.Expr, temps map[types.Object]string) s
 		}
 		if id, ok := ast.Unparen(l).(*ast.Ident); ok && temps != nil {
 			if t, ok := temps[info.ObjectOf(id)]; ok {
+				sb.WriteString(t)
+				continue
+			}
+		}
+		if se, ok := ast.Unparen(l).(*ast.SelectorExpr); ok && selSubst != nil {
+			if t, ok := selSubst[types.ExprString(se)]; ok {
 				sb.WriteString(t)
 				continue
 			}
